@@ -167,7 +167,7 @@ func runC07Tunnel(i int, tn c07Tunnel, c c07Case, o gwOpts, mkTarget func(user s
 	if o.TokenAuth && tn.Setup == "bad-cookie" {
 		wantResp = 2
 	}
-	if !waitFor(func() bool { return countPackets(conn) >= wantResp }) {
+	if !waitLong(func() bool { return countPackets(conn) >= wantResp }) {
 		return fmt.Sprintf("tunnel %d (%s, user %s, setup %s): only %d of %d set-up responses", i, tn.Kind, tn.User, tn.Setup, countPackets(conn), wantResp)
 	}
 	var pk [][]byte
@@ -195,7 +195,7 @@ func runC07Tunnel(i int, tn c07Tunnel, c c07Case, o gwOpts, mkTarget func(user s
 	}
 	conn.Send(tsgu.Data(tag))
 	var host *backend.Conn
-	deadline := time.Now().Add(10 * time.Second)
+	deadline := time.Now().Add(30 * time.Second)
 	for host == nil && time.Now().Before(deadline) {
 		for li, l := range g.Ls {
 			for _, hc := range l.Conns()[from[li]:] {
@@ -264,7 +264,7 @@ func runC07Tunnel(i int, tn c07Tunnel, c c07Case, o gwOpts, mkTarget func(user s
 		}
 	}
 	// everything the host wrote must reach this client and nothing else may
-	wait := 10 * time.Second
+	wait := 30 * time.Second
 	if tn.Stall {
 		wait = 60 * time.Second // megabytes are queued behind the stall
 	}
@@ -289,8 +289,8 @@ func runC07Tunnel(i int, tn c07Tunnel, c c07Case, o gwOpts, mkTarget func(user s
 		conn.Close()
 	}
 	if !hostClosed {
-		if !host.WaitEOF(10 * time.Second) {
-			return fmt.Sprintf("tunnel %d: backend connection still open 10 s after the tunnel ended (%s)", i, tn.End)
+		if !host.WaitEOF(30 * time.Second) {
+			return fmt.Sprintf("tunnel %d: backend connection still open 30 s after the tunnel ended (%s)", i, tn.End)
 		}
 		rx := host.Received()
 		if !bytes.Equal(rx, sentC) {
